@@ -9,6 +9,7 @@ RULE = ("every input of the C02 stream (grammar trees, mutations, exhaustive sma
         "and rejecting filters; relational oracle on the implementation's own answers: same ok/none/error class and same number of octets "
         "left; the filter trace equals the pre-order (tag, constructed, depth) list of the reference tree. One 100000-level deep nesting per "
         "form runs on a 256 KiB stack (runtime clause, exploration). non-trivial = the value was skipped.")
+CROSS = {'C02': 2000, 'C09': 2000, 'C11': 2000, 'C03': 1500, 'C07': 2000}   # cross streams: samples of neighbouring properties' request streams (outcomes, model <-> implementation)
 EXHAUSTIVE = {"quick": False, "thorough": False}
 EXHAUSTIVE_NOTE = {"quick": "all octet strings of length <= 2 x 3 modes x skipone/tov pairs", "thorough": "alphabet strings of length <= 4"}
 ASSUMPTIONS = ["call-stack use of the Rust is outside the model; explored by the deep-nesting requests"]
